@@ -195,7 +195,8 @@ META = {
 
 MANIFEST_ENTRY = {
     'text': 'Symbolic execution of the real local trapezoidal and Simpson grid code with the global interval as solver variables and dyadic sub-boxes: point counts, '
-            'containment, weight sums, polynomial exactness and the boundary-off contract are decided for every interval at once; 2-D tensorisation against an uninterpreted integrand.',
+            'containment, weight sums, polynomial exactness and the boundary-off contract are decided for every interval at once (also for a grid object that was used on another sub-box before); 2-D tensorisation against an uninterpreted integrand; '
+            'local Lagrange/B-spline grids on sub-boxes integrate polynomials with symbolic coefficients up to min(p, n-1) exactly.',
     'note': 'Trusted: z3, LIFT proxies/numpy facade, symbolic isclose (same formula). Clenshaw-Curtis, Leja and Gauss-Legendre clauses are not applicable (transcendental / compiled).',
 }
 
